@@ -17,7 +17,8 @@ for the file system / definitions / commands (`edit touch delete editKeep redefi
   `["exec", t, ok, always, writes, res]` monitor mode (as in the status driver)
 answer `{"steps":[…]}`, one object per op.
 
-`mode = "getargs"`: `{"ops":[["save",t,[[k,v]…]] | ["remove",t] | ["get", subs|null, src, key|null]]}`; answer per `get`:
+`mode = "getargs"`: `{"ops":[["save",t,[[k,v]…]] | ["remove",t] | ["get", subs|null, src, key|null(, [group, [full names…]])]]}`
+(`keys` in the answer = `subKey group full` for every sub-task: the dict keys of a group source); answer per `get`:
 `model` = `getArg` on the DB state machine, `spec` = `getArg` on `latest` of the reversed history. -/
 
 def sortNats (l : List Nat) : List Nat := (l.toArray.qsort (· < ·)).toList
@@ -147,7 +148,7 @@ def argJ : Except GErr ArgVal → Json
 
 inductive GEv
   | op (o : VOp)
-  | get (subs : Option (List Nat)) (src : Nat) (key : Option Nat)
+  | get (subs : Option (List Nat)) (src : Nat) (key : Option Nat) (group : String) (full : List String)
 
 def parseGEv (j : Json) : Option GEv :=
   match asArr j with
@@ -155,7 +156,16 @@ def parseGEv (j : Json) : Option GEv :=
   | [tag, a, b] => if asStr tag = "save" then some (.op (.save (asNat a) (parseUV b))) else none
   | [tag, subs, src, key] =>
     if asStr tag = "get" then
-      some (.get (match subs with | .arr a => some (a.toList.map asNat) | _ => none) (asNat src) (key.getNat?).toOption)
+      some (.get (match subs with | .arr a => some (a.toList.map asNat) | _ => none) (asNat src) (key.getNat?).toOption "" [])
+    else none
+  | [tag, subs, src, key, names] =>
+    -- group source with the real task names: `[group name, [full sub-task names…]]`
+    if asStr tag = "get" then
+      match asArr names with
+      | [g, fs] =>
+        some (.get (match subs with | .arr a => some (a.toList.map asNat) | _ => none) (asNat src) (key.getNat?).toOption
+                   (asStr g) ((asArr fs).map asStr))
+      | _ => none
     else none
   | _ => none
 
@@ -167,9 +177,10 @@ def handleGetargs (j : Json) : Json :=
     let (_, _, outs) := evs.foldl (fun (acc : VDB × List VOp × List Json) e =>
       match e with
       | .op o => (vstep acc.1 o, o :: acc.2.1, Json.null :: acc.2.2)
-      | .get subs src key =>
+      | .get subs src key group full =>
         (acc.1, acc.2.1, Json.mkObj [("model", argJ (getArg acc.1 subs src key)),
-                                     ("spec", argJ (getArg (latest acc.2.1) subs src key))] :: acc.2.2))
+                                     ("spec", argJ (getArg (latest acc.2.1) subs src key)),
+                                     ("keys", ofStrs (full.map fun f => String.ofList (subKey group.toList f.toList)))] :: acc.2.2))
       ((fun _ => none), [], [])
     Json.mkObj [("steps", mkArr outs.reverse)]
 
